@@ -72,6 +72,8 @@ type Hooks struct {
 	AfterNodeStep func(n *Node, what string)
 	// Gossip is called for every gossip payload delivered to a node before its validator runs.
 	Gossip func(to *Node, from p2p.PeerID, topic string, data []byte)
+	// BeforeForge is called right before a node's generator gets its turn (it may or may not produce a block).
+	BeforeForge func(n *Node)
 	// Forged is called when a node's generator handed a block to its executer.
 	Forged func(n *Node, b *blockchain.Block)
 	// RPC is called for every sync RPC (after the response was determined; fault is the injected fault code, 0 = none).
@@ -680,6 +682,9 @@ func (s *Sim) StartTicks(n *Node) {
 		s.Step(n, "tick", func() {
 			n.Pool.VerifReorg()
 			before := n.Exec.VerifQueueLen()
+			if s.Hooks.BeforeForge != nil {
+				s.Hooks.BeforeForge(n)
+			}
 			n.Gen.VerifForge()
 			if n.Exec.VerifQueueLen() > before {
 				s.Stats["forged"]++
